@@ -497,3 +497,142 @@ def coq_fn(f):
         ret = "(Some (VTuple [" + "; ".join(coq_ty(t) for _, t in f["ret"]) + "]))"
     mut = f["mut"].capitalize()
     return f"(mkfn {qs(f['name'])} {kind} {pos} {kws} {ret} {mut})"
+
+
+# ---------------------------------------------------------------- multi-module programs: events / errors of imported modules
+ME_TYPES = [("int", False, 256), ("int", False, 8), ("int", True, 128), ("int", True, 256), ("bool",), ("address",), ("bytesM", 32),
+            ("bytesM", 4), ("bytes", 40), ("string", 20), ("darr", ("int", False, 256), 3), ("sarr", ("int", False, 16), 2)]
+ME_EVENT_NAMES = ["Ping", "Moved", "Note"]
+ME_ERROR_NAMES = ["Denied", "Bad"]
+
+
+def abi_canon(t):
+    """canonical ABI type string of a generator type (independent of the compiler)"""
+    k = t[0]
+    if k == "int":
+        return f"{'int' if t[1] else 'uint'}{t[2]}"
+    if k in ("bool", "address"):
+        return k
+    if k == "bytesM":
+        return f"bytes{t[1]}"
+    if k == "bytes":
+        return "bytes"
+    if k == "string":
+        return "string"
+    if k == "sarr":
+        return f"{abi_canon(t[1])}[{t[2]}]"
+    if k == "darr":
+        return f"{abi_canon(t[1])}[]"
+    raise ValueError(t)
+
+
+def gen_module_events(rnd):
+    """A main contract importing 2..3 library modules.  The modules declare events and custom errors whose NAMES come from
+    a small shared pool (so two modules regularly declare the same name with different -- or the same -- fields); module
+    m<i> may reach module m<i+1> only transitively.  Every external function of main emits exactly one event or raises
+    exactly one error, locally declared or of a module.  Returns the files, the calls and the set of events / errors which
+    are declared locally or reachable (what the ABI must list)."""
+    nmod = rnd.randint(2, 3)
+
+    def fields(prefix, event):
+        out = []
+        for j in range(rnd.randint(0 if not event else 1, 3)):
+            t = rnd.choice(ME_TYPES)
+            ix = event and t[0] in ("int", "bool", "address", "bytesM") and rnd.random() < 0.4 and sum(1 for f in out if f[2]) < 3
+            out.append((f"{prefix}{j}", t, ix))
+        return out
+
+    mods = []
+    for m in range(nmod):
+        decls = []
+        for nm in rnd.sample(ME_EVENT_NAMES, rnd.randint(1, len(ME_EVENT_NAMES))):
+            # sometimes the very same declaration as in the previous module
+            prev = [d for d in (mods[-1]["decls"] if mods else []) if d["name"] == nm and d["kind"] == "event"]
+            fs = prev[0]["fields"] if prev and rnd.random() < 0.25 else fields("a", True)
+            decls.append({"kind": "event", "name": nm, "fields": fs, "mod": m})
+        for nm in rnd.sample(ME_ERROR_NAMES, rnd.randint(1, len(ME_ERROR_NAMES))):
+            prev = [d for d in (mods[-1]["decls"] if mods else []) if d["name"] == nm and d["kind"] == "error"]
+            fs = prev[0]["fields"] if prev and rnd.random() < 0.25 else fields("x", False)
+            decls.append({"kind": "error", "name": nm, "fields": fs, "mod": m})
+        mods.append({"decls": decls, "name": f"m{m}"})
+    local = []
+    for i in range(rnd.randint(1, 2)):
+        local.append({"kind": "event", "name": f"L{i}", "fields": fields("a", True), "mod": None})
+    local.append({"kind": "error", "name": "LE0", "fields": fields("x", False), "mod": None})
+    if rnd.random() < 0.5:
+        local.append({"kind": "event", "name": "Unused", "fields": fields("a", True), "mod": None})   # declared, never emitted: listed
+
+    def sig(d):
+        return d["name"] + "(" + ",".join(abi_canon(t) for _, t, _ in d["fields"]) + ")"
+
+    def params(d):
+        return ", ".join(f"{n}: {ann(t)}" for n, t, _ in d["fields"])
+
+    def kwargs(d):
+        return ", ".join(f"{n}={n}" for n, _, _ in d["fields"])
+
+    def names(d):
+        return ", ".join(n for n, _, _ in d["fields"])
+
+    def decl_src(d):
+        if d["kind"] == "event":
+            return f"event {d['name']}:\n" + ("".join(f"    {n}: {'indexed(' + ann(t) + ')' if ix else ann(t)}\n" for n, t, ix in d["fields"])
+                                              or "    pass\n")
+        return f"error {d['name']}:\n" + ("".join(f"    {n}: {ann(t)}\n" for n, t, _ in d["fields"]) or "    pass\n")
+
+    def act(d, q=""):
+        return (f"log {q}{d['name']}({kwargs(d)})" if d["kind"] == "event" else f"raise {q}{d['name']}({kwargs(d)})")
+
+    # which module declarations main reaches: directly, or through the previous module (m<i>.via_<name> calls m<i+1>.do_<name>)
+    files, calls, reachable = {}, [], []
+    via = {}
+    for m in reversed(range(nmod)):
+        M = mods[m]
+        src = []
+        nxt = mods[m + 1] if m + 1 < nmod else None
+        if nxt is not None:
+            src.append(f"import {nxt['name']}\n")
+        for d in M["decls"]:
+            src.append(decl_src(d))
+        for d in M["decls"]:
+            src.append(f"@internal\ndef do_{d['kind']}_{d['name']}({params(d)}):\n    {act(d)}\n")
+        via[m] = []
+        if nxt is not None:
+            for d in nxt["decls"]:
+                if rnd.random() < 0.5:
+                    via[m].append(d)
+                    src.append(f"@internal\ndef via_{d['kind']}_{d['name']}({params(d)}):\n    {nxt['name']}.do_{d['kind']}_{d['name']}({names(d)})\n")
+        files[f"{M['name']}.vy"] = "\n".join(src)
+    direct = [m for m in range(nmod) if m == 0 or rnd.random() < 0.6]    # modules imported by main (m0 always)
+    main = [f"import {mods[m]['name']}\n" for m in direct]
+    for d in local:
+        main.append(decl_src(d))
+    k = 0
+    for d in local:
+        if d["name"] == "Unused":
+            reachable.append(d)
+            continue
+        main.append(f"@external\ndef c{k}({params(d)}):\n    {act(d)}\n")
+        calls.append({"fn": f"c{k}", "decl": d})
+        reachable.append(d)
+        k += 1
+    for m in direct:
+        for d in mods[m]["decls"]:
+            if rnd.random() < 0.8:
+                main.append(f"@external\ndef c{k}({params(d)}):\n    {mods[m]['name']}.do_{d['kind']}_{d['name']}({names(d)})\n")
+                calls.append({"fn": f"c{k}", "decl": d})
+                reachable.append(d)
+                k += 1
+        for d in via[m]:
+            if rnd.random() < 0.8:
+                main.append(f"@external\ndef c{k}({params(d)}):\n    {mods[m]['name']}.via_{d['kind']}_{d['name']}({names(d)})\n")
+                calls.append({"fn": f"c{k}", "decl": d})
+                reachable.append(d)
+                k += 1
+    for c in calls:
+        c["sig"] = sig(c["decl"])
+        c["fsig"] = c["fn"] + "(" + ",".join(abi_canon(t) for _, t, _ in c["decl"]["fields"]) + ")"
+    expected = {"event": set(), "error": set()}
+    for d in reachable:
+        expected[d["kind"]].add((sig(d), tuple(n for n, _, _ in d["fields"]), tuple(bool(ix) for _, _, ix in d["fields"]) if d["kind"] == "event" else ()))
+    return {"src": "\n".join(main), "files": files, "calls": calls, "expected": expected}
